@@ -466,3 +466,99 @@ theorem sctBytes_eq_spec (ntp : Nat) (h : ntp < 2^64) :
   rewrite [Nat.div_add_mod' ntp 4294967296]
   apply beBytes_congr; simp only [Nat.reducePow]; omega
 end Flute.Alc
+
+namespace Flute.Alc
+open Flute Flute.Bytes Flute.Lct Flute.Fti Flute.Alc Flute.Spec Flute.Ntp
+
+/-- the octets of a list of 32-bit time values -/
+def timeBytes : List Nat → List Nat
+  | [] => []
+  | v :: r => beBytes 4 v ++ timeBytes r
+
+theorem length_timeBytes (vals : List Nat) : (timeBytes vals).length = 4 * vals.length := by
+  induction vals with
+  | nil => rfl
+  | cons v r ih => simp only [timeBytes, List.length_append, length_beBytes, ih, List.length_cons]; omega
+
+theorem width_vals (vals : List Nat) : width (vals.map fun v => ((32:Nat), v)) = 32 * vals.length := by
+  induction vals with
+  | nil => rfl
+  | cons v r ih => simp only [List.map_cons, width, ih, List.length_cons]; omega
+
+theorem fieldsOk_vals (vals : List Nat) (h : ∀ v ∈ vals, v < 2^32) : FieldsOk (vals.map fun v => ((32:Nat), v)) := by
+  induction vals with
+  | nil => trivial
+  | cons v r ih => exact ⟨h v (by simp), ih (fun x hx => h x (by simp [hx]))⟩
+
+theorem encode_vals (vals : List Nat) (h : ∀ v ∈ vals, v < 2^32) :
+    Spec.encode (vals.map fun v => ((32:Nat), v)) = timeBytes vals := by
+  induction vals with
+  | nil => rfl
+  | cons v r ih =>
+    have hr : ∀ x ∈ r, x < 2^32 := fun x hx => h x (by simp [hx])
+    have : (v :: r).map (fun v => ((32:Nat), v)) = [((32:Nat), v)] ++ r.map (fun v => ((32:Nat), v)) := rfl
+    rw [this, encode_append _ _ (by simp [width]) (by rw [width_vals]; omega) (fieldsOk_vals r hr), ih hr]
+    have e : Spec.encode [((32:Nat), v)] = beBytes 4 v := encode_single 4 v
+    rw [e]; rfl
+
+theorem use_bits (hi lo ert slc resv : Nat) (hhi : hi < 2) (hlo : lo < 2) (hert : ert < 2) (hslc : slc < 2)
+    (hresv : resv < 16) :
+    (hi * 128 + lo * 64 + ert * 32 + slc * 16 + resv) / 128 % 2 = hi ∧
+    (hi * 128 + lo * 64 + ert * 32 + slc * 16 + resv) / 64 % 2 = lo ∧
+    (hi * 128 + lo * 64 + ert * 32 + slc * 16 + resv) / 32 % 2 = ert ∧
+    (hi * 128 + lo * 64 + ert * 32 + slc * 16 + resv) / 16 % 2 = slc := by
+  refine ⟨?_, ?_, ?_, ?_⟩ <;> omega
+
+theorem time_first_word (n hi lo ert slc resv pi : Nat) (hn : n < 255) (hhi : hi < 2) (hlo : lo < 2) (hert : ert < 2)
+    (hslc : slc < 2) (hresv : resv < 16) (hpi : pi < 256) :
+    Spec.encode [(8, HET_TIME), (8, 1 + n), (1, hi), (1, lo), (1, ert), (1, slc), (4, resv), (8, pi)] =
+      [2, 1 + n, hi * 128 + lo * 64 + ert * 32 + slc * 16 + resv, pi] := by
+  rw [spec_encode_eq]
+  simp only [width, pack, HET_TIME, Nat.reduceAdd, Nat.reduceDiv, Nat.reducePow, beBytes, Nat.pow_zero, Nat.div_one,
+    Nat.mul_one, Nat.add_zero]
+  refine cons_congr (by omega) (cons_congr (by omega) (cons_congr (by omega) (cons_congr (by omega) rfl)))
+
+/-- `parse_sct` on an EXT_TIME given by its first word and its time values -/
+theorem parseSct_general (hi lo ert slc resv pi : Nat) (vals : List Nat) (hhi : hi < 2) (hlo : lo < 2) (hert : ert < 2)
+    (hslc : slc < 2) (hresv : resv < 16) (hn : vals.length = hi + lo + ert + slc) (hv : ∀ v ∈ vals, v < 2^32) :
+    parseSct ([2, 1 + vals.length, hi * 128 + lo * 64 + ert * 32 + slc * 16 + resv, pi] ++ timeBytes vals) =
+      if hi = 0 then .ok none else
+      (ntpToSystemTime (vals.headD 0 * 2^32 + (if lo = 1 then (vals.drop 1).headD 0 else 0))).bind fun t => .ok (some t) := by
+  have hl := length_timeBytes vals
+  obtain ⟨u1, u2, u3, u4⟩ := use_bits hi lo ert slc resv hhi hlo hert hslc hresv
+  generalize hi * 128 + lo * 64 + ert * 32 + slc * 16 + resv = u at u1 u2 u3 u4 ⊢
+  unfold parseSct
+  rw [if_neg (by simp only [List.length_append, List.length_cons, List.length_nil]; omega)]
+  have g2 : idx ([2, 1 + vals.length, u, pi] ++ timeBytes vals) 2 = .ok u := rfl
+  rw [g2, Out.bind_ok]
+  simp only [u1, u2, u3, u4]
+  rw [if_neg (by simp only [List.length_append, List.length_cons, List.length_nil, hl, ne_eq]; omega)]
+  by_cases h0 : hi = 0
+  · rw [if_pos h0, if_pos h0]
+  · rw [if_neg h0, if_neg h0]
+    have hi1 : hi = 1 := by omega
+    match vals, hn, hv, hl with
+    | v0 :: r, hn, hv, hl =>
+      have hv0 : v0 < 256 ^ 4 := by have := hv v0 (by simp); simpa using this
+      have f1 : fld ([2, 1 + (v0 :: r).length, u, pi] ++ timeBytes (v0 :: r)) 4 8 = .ok v0 := by
+        unfold fld
+        rw [show timeBytes (v0 :: r) = beBytes 4 v0 ++ timeBytes r from rfl,
+          slice_mid _ _ _ 4 8 (by simp) (by simp), Out.bind_ok, beVal_beBytes_of_lt hv0]
+      rw [f1, Out.bind_ok]
+      by_cases hl1 : lo = 1
+      · rw [if_pos hl1, if_pos hl1]
+        match r, hn, hv, hl with
+        | v1 :: r', hn, hv, hl =>
+          have hv1 : v1 < 256 ^ 4 := by have := hv v1 (by simp); simpa using this
+          have f2 : fld ([2, 1 + (v0 :: v1 :: r').length, u, pi] ++ timeBytes (v0 :: v1 :: r')) 8 12 = .ok v1 := by
+            unfold fld
+            rw [show [2, 1 + (v0 :: v1 :: r').length, u, pi] ++ timeBytes (v0 :: v1 :: r') =
+                ([2, 1 + (v0 :: v1 :: r').length, u, pi] ++ beBytes 4 v0) ++ (beBytes 4 v1 ++ timeBytes r') by
+              simp only [timeBytes, List.append_assoc],
+              slice_mid _ _ _ 8 12 (by simp) (by simp), Out.bind_ok, beVal_beBytes_of_lt hv1]
+          rw [f2, Out.bind_ok]; rfl
+        | [], hn, _, _ => simp only [List.length_cons, List.length_nil] at hn; omega
+      · rw [if_neg hl1, if_neg hl1, Out.bind_ok]; rfl
+    | [], hn, _, _ => simp only [List.length_nil] at hn; omega
+
+end Flute.Alc
